@@ -152,7 +152,9 @@ func checkC08(c *Ctx) {
 			c.c07Delete(b)
 			c.c07Batch(b)
 		}
-	}, func(o *coreObl) (string, bool) { return "R08.7", o.Rule == "R07.1" || o.Rule == "R07.3" || o.Rule == "R07.4" })
+	}, func(o *coreObl) (string, bool) {
+		return "R08.7", o.Rule == "R07.1" || o.Rule == "R07.3" || o.Rule == "R07.4"
+	})
 	c.borrow("C09", func() {
 		for _, b := range backends {
 			if b.Sharded {
